@@ -8,7 +8,8 @@ R-C17.2  `python_value_to_guppy_type` interpreted on (value, hint) pairs -- scal
          else at int iff in the signed range; bool is bool; every element of a tuple/list
          constant is range-checked.
 R-C17.3  negative literals are folded to constants before checking (`-9223372036854775808`).
-R-C17.4  lowering uses the type's signedness and width.
+R-C17.4  lowering uses the type's signedness and width: `python_value_to_hugr` interpreted on int values at nat / int, bare
+         and inside tuple / list constants, with recording constructors (c17_lowering.py; match-arm shape only as fallback).
 R-C17.5  all constant entry points reach the range-checked function.
 Not decided: the value the compiled program observes.
 """
@@ -228,19 +229,22 @@ def run(ctx: Ctx) -> None:
               "`-9223372036854775808` is checked as 9223372036854775808 (out of range) and negated afterwards")
 
     # ------------------------------------------------------------ R-C17.4 lowering by signedness
-    ph = idx.find_func("python_value_to_hugr", "guppylang_internals.compiler.expr_compiler")
-    pairs = {}
-    for m in walk_no_nested(ph.node):
-        if isinstance(m, ast.match_case) and dotted(getattr(m.pattern, "value", None) or ast.Name(id="")).endswith(("Kind.Nat", "Kind.Int")):
-            k = dotted(m.pattern.value).split(".")[-1]
-            for r in ast.walk(ast.Module(body=m.body, type_ignores=[])):
-                if isinstance(r, ast.Return) and isinstance(r.value, ast.Call):
-                    width = [ast.unparse(kw.value) for kw in r.value.keywords if kw.arg == "width"]
-                    pairs[k] = (dotted(r.value.func).split(".")[-1], width[0] if width else (ast.unparse(r.value.args[1]) if len(r.value.args) > 1 else None))
-    ctx.check(pairs.get("Nat", ("",))[0] == "UnsignedIntVal" and pairs.get("Int", ("",))[0] == "IntVal"
-              and all(p[1] == "NumericType.INT_WIDTH" for p in pairs.values()) and len(pairs) == 2, "R-C17.4",
-              f"{ph.qualname}#signedness", ph.where, {"lowering": pairs},
-              "an accepted nat/int constant is lowered with the wrong signedness or width")
+    from . import c17_lowering
+    if not c17_lowering.run(ctx):
+        # fallback (not interpretable): the two match arms construct UnsignedIntVal / IntVal with width=NumericType.INT_WIDTH
+        ph = idx.find_func("python_value_to_hugr", "guppylang_internals.compiler.expr_compiler")
+        pairs = {}
+        for m in walk_no_nested(ph.node):
+            if isinstance(m, ast.match_case) and dotted(getattr(m.pattern, "value", None) or ast.Name(id="")).endswith(("Kind.Nat", "Kind.Int")):
+                k = dotted(m.pattern.value).split(".")[-1]
+                for r in ast.walk(ast.Module(body=m.body, type_ignores=[])):
+                    if isinstance(r, ast.Return) and isinstance(r.value, ast.Call):
+                        width = [ast.unparse(kw.value) for kw in r.value.keywords if kw.arg == "width"]
+                        pairs[k] = (dotted(r.value.func).split(".")[-1], width[0] if width else (ast.unparse(r.value.args[1]) if len(r.value.args) > 1 else None))
+        ctx.check(pairs.get("Nat", ("",))[0] == "UnsignedIntVal" and pairs.get("Int", ("",))[0] == "IntVal"
+                  and all(p[1] == "NumericType.INT_WIDTH" for p in pairs.values()) and len(pairs) == 2, "R-C17.4",
+                  f"{ph.qualname}#signedness", ph.where, {"lowering": pairs},
+                  "an accepted nat/int constant is lowered with the wrong signedness or width")
 
     # ------------------------------------------------------------ R-C17.5 entry points
     entry = [("ExprChecker", "visit_Constant"), ("ExprSynthesizer", "visit_Constant"), ("ExprChecker", "visit_ComptimeExpr"), ("ExprSynthesizer", "visit_ComptimeExpr")]
@@ -250,9 +254,12 @@ def run(ctx: Ctx) -> None:
         ok = g.every_path_to_exit_passes(calls_any({"python_value_to_guppy_type"}))
         ctx.check(ok, "R-C17.5", f"{f.qualname}#reaches-range-check", f.where, {"all_accepting_paths": ok},
                   "a constant can be accepted on a path that never calls the range-checking typing function")
-    # the two int arms of python_value_to_guppy_type call the check before returning
-    arms = [m for m in walk_no_nested(pv.node) if isinstance(m, ast.match_case) and isinstance(m.pattern, ast.MatchClass) and dotted(m.pattern.cls) == "int"]
-    ctx.floor("R-C17.5", "int arms", len(arms), 2)
-    order = [dotted(m.pattern.cls) if isinstance(m.pattern, ast.MatchClass) else "" for m in walk_no_nested(pv.node) if isinstance(m, ast.match_case)]
-    ctx.check("bool" in order and order.index("bool") < order.index("int"), "R-C17.5", f"{pv.qualname}#bool-before-int", pv.where, {"arm_order": [o for o in order if o]},
-              "True/False would be typed as integers (bool is a subclass of int)")
+    # (that integers are range-checked on every arm and that True/False are typed bool, not int, is decided by R-C17.2's table;
+    #  the arm-shape form is the fallback when that table could not be evaluated)
+    if und:
+        # the two int arms of python_value_to_guppy_type call the check before returning
+        arms = [m for m in walk_no_nested(pv.node) if isinstance(m, ast.match_case) and isinstance(m.pattern, ast.MatchClass) and dotted(m.pattern.cls) == "int"]
+        ctx.floor("R-C17.5", "int arms", len(arms), 2)
+        order = [dotted(m.pattern.cls) if isinstance(m.pattern, ast.MatchClass) else "" for m in walk_no_nested(pv.node) if isinstance(m, ast.match_case)]
+        ctx.check("bool" in order and order.index("bool") < order.index("int"), "R-C17.5", f"{pv.qualname}#bool-before-int", pv.where, {"arm_order": [o for o in order if o]},
+                  "True/False would be typed as integers (bool is a subclass of int)")
